@@ -2,5 +2,402 @@ import PyCliffordModel.Proofs.Algebra
 import PyCliffordModel.Spec.PolySpec
 /-! # Proofs/PolyLemmas — helper lemmas for C15 (Gaussian-rational coefficients, `coef`, `reduce`) -/
 namespace PC
+namespace Cx
+
+theorem ext' {a b : Cx} (h1 : a.re = b.re) (h2 : a.im = b.im) : a = b := by
+  cases a; cases b; simp_all
+
+theorem add_comm (a b : Cx) : a.add b = b.add a := by
+  apply ext' <;> simp only [add] <;> grind
+theorem add_assoc (a b c : Cx) : (a.add b).add c = a.add (b.add c) := by
+  apply ext' <;> simp only [add] <;> grind
+theorem add_left_comm (a b c : Cx) : a.add (b.add c) = b.add (a.add c) := by
+  apply ext' <;> simp only [add] <;> grind
+theorem zero_add (a : Cx) : zero.add a = a := by
+  apply ext' <;> simp only [add, zero] <;> grind
+theorem add_zero (a : Cx) : a.add zero = a := by
+  apply ext' <;> simp only [add, zero] <;> grind
+theorem mul_comm (a b : Cx) : a.mul b = b.mul a := by
+  apply ext' <;> simp only [mul] <;> grind
+theorem mul_assoc (a b c : Cx) : (a.mul b).mul c = a.mul (b.mul c) := by
+  apply ext' <;> simp only [mul] <;> grind
+theorem mul_left_comm (a b c : Cx) : a.mul (b.mul c) = b.mul (a.mul c) := by
+  apply ext' <;> simp only [mul] <;> grind
+theorem mul_add (a b c : Cx) : a.mul (b.add c) = (a.mul b).add (a.mul c) := by
+  apply ext' <;> simp only [mul, add] <;> grind
+theorem add_mul (a b c : Cx) : (a.add b).mul c = (a.mul c).add (b.mul c) := by
+  apply ext' <;> simp only [mul, add] <;> grind
+theorem neg_add (a b : Cx) : (a.add b).neg = a.neg.add b.neg := by
+  apply ext' <;> simp only [neg, add] <;> grind
+theorem mul_neg (a b : Cx) : a.mul b.neg = (a.mul b).neg := by
+  apply ext' <;> simp only [neg, mul] <;> grind
+theorem neg_mul (a b : Cx) : a.neg.mul b = (a.mul b).neg := by
+  apply ext' <;> simp only [neg, mul] <;> grind
+theorem neg_zero : zero.neg = zero := by
+  apply ext' <;> simp only [neg, zero] <;> grind
+theorem one_mul (a : Cx) : one.mul a = a := by
+  apply ext' <;> simp only [mul, one] <;> grind
+theorem mul_one (a : Cx) : a.mul one = a := by
+  apply ext' <;> simp only [mul, one] <;> grind
+theorem zero_mul (a : Cx) : zero.mul a = zero := by
+  apply ext' <;> simp only [mul, zero] <;> grind
+theorem mul_zero (a : Cx) : a.mul zero = zero := by
+  apply ext' <;> simp only [mul, zero] <;> grind
+
+theorem ipow_congr {p q : Int} (h : p % 4 = q % 4) : ipow p = ipow q := by
+  unfold ipow; rw [h]
+theorem ipow_mod (p : Int) : ipow (p % 4) = ipow p := ipow_congr (by omega)
+theorem ipow_zero : ipow 0 = one := rfl
+theorem ipow_of_mod_zero {p : Int} (h : p % 4 = 0) : ipow p = one := by
+  rw [← ipow_zero]; exact ipow_congr (by omega)
+
+theorem ipow_add (p q : Int) : ipow (p + q) = (ipow p).mul (ipow q) := by
+  have h : ipow (p + q) = ipow (p % 4 + q % 4) := ipow_congr (by omega)
+  rw [h, ← ipow_mod p, ← ipow_mod q]
+  have hp : p % 4 = 0 ∨ p % 4 = 1 ∨ p % 4 = 2 ∨ p % 4 = 3 := by omega
+  have hq : q % 4 = 0 ∨ q % 4 = 1 ∨ q % 4 = 2 ∨ q % 4 = 3 := by omega
+  rcases hp with hp | hp | hp | hp <;> rcases hq with hq | hq | hq | hq <;> rw [hp, hq] <;>
+    apply ext' <;> simp [ipow, mul] <;> grind
+
+end Cx
+
+/-! ## `coef` is additive over the term list -/
+
+/-- the contribution of one term to the coefficient of `g` -/
+def termVal (t : Term) (g : PStr) : Cx := if t.1.g = g then t.2.mul (Cx.ipow t.1.p) else Cx.zero
+
+theorem coef_foldl (a : Poly) (g : PStr) (acc : Cx) :
+    a.foldl (fun acc t => if t.1.g = g then acc.add (t.2.mul (Cx.ipow t.1.p)) else acc) acc
+      = acc.add (coef a g) := by
+  induction a generalizing acc with
+  | nil => simp [coef, Cx.add_zero]
+  | cons t a ih =>
+    simp only [coef, List.foldl_cons]
+    rw [ih, ih (acc := if t.1.g = g then _ else _)]
+    split <;> simp [Cx.add_assoc, Cx.zero_add]
+
+theorem coef_nil (g : PStr) : coef [] g = Cx.zero := rfl
+theorem coef_cons (t : Term) (a : Poly) (g : PStr) : coef (t :: a) g = (termVal t g).add (coef a g) := by
+  show List.foldl _ _ _ = _
+  rw [List.foldl_cons, coef_foldl]; unfold termVal
+  split <;> simp [Cx.zero_add]
+theorem coef_single (t : Term) (g : PStr) : coef [t] g = termVal t g := by
+  rw [coef_cons, coef_nil, Cx.add_zero]
+
+theorem coef_append (a b : Poly) (g : PStr) : coef (a ++ b) g = (coef a g).add (coef b g) := by
+  induction a with
+  | nil => simp [coef_nil, Cx.zero_add]
+  | cons t a ih => simp [coef_cons, ih, Cx.add_assoc]
+
+theorem coef_neg (a : Poly) (g : PStr) : coef (polyNeg a) g = (coef a g).neg := by
+  induction a with
+  | nil => simp [polyNeg, coef_nil, Cx.neg_zero]
+  | cons t a ih =>
+    simp only [polyNeg, List.map_cons] at ih ⊢
+    rw [coef_cons, coef_cons, ih, Cx.neg_add]; congr 1
+    unfold termVal; split <;> simp [Cx.neg_mul, Cx.neg_zero]
+
+theorem coef_smul (c : Cx) (a : Poly) (g : PStr) : coef (polySmul c a) g = c.mul (coef a g) := by
+  induction a with
+  | nil => simp [polySmul, coef_nil, Cx.mul_zero]
+  | cons t a ih =>
+    simp only [polySmul, List.map_cons] at ih ⊢
+    rw [coef_cons, coef_cons, ih, Cx.mul_add]; congr 1
+    unfold termVal; split <;> simp [Cx.mul_assoc, Cx.mul_zero]
+
+
+/-! ## the row order of `numpy.unique` -/
+
+theorem ltBits_irrefl (a : List Bool) : ltBits a a = false := by
+  induction a with
+  | nil => rfl
+  | cons x a ih => simp [ltBits, ih]
+
+theorem ltBits_trans (a b c : List Bool) (h1 : ltBits a b = true) (h2 : ltBits b c = true) : ltBits a c = true := by
+  induction a generalizing b c with
+  | nil => cases b <;> cases c <;> simp_all [ltBits]
+  | cons x a ih =>
+    cases b with
+    | nil => simp [ltBits] at h1
+    | cons y b =>
+      cases c with
+      | nil => simp [ltBits] at h2
+      | cons z c =>
+        simp only [ltBits] at h1 h2 ⊢
+        cases x <;> cases y <;> cases z <;> simp_all
+        exact ih _ _ h1 h2
+        exact ih _ _ h1 h2
+
+theorem ltBits_total (a b : List Bool) (hne : a ≠ b) (h : ltBits a b = false) : ltBits b a = true := by
+  induction a generalizing b with
+  | nil => cases b <;> simp_all [ltBits]
+  | cons x a ih =>
+    cases b with
+    | nil => simp [ltBits]
+    | cons y b =>
+      simp only [ltBits] at h ⊢
+      cases x <;> cases y <;> simp_all
+
+theorem flat_inj (g h : PStr) (e : flat g = flat h) : g = h := by
+  induction g generalizing h with
+  | nil => cases h <;> simp_all [flat]
+  | cons q g ih =>
+    cases h with
+    | nil => simp [flat] at e
+    | cons r h =>
+      simp only [flat, List.cons.injEq] at e
+      rw [ih h e.2.2]
+      congr 1
+      exact Prod.ext e.1 e.2.1
+
+
+/-! ## `insertTerm` / `reduce` -/
+
+/-- coefficient lookup in an aggregated list -/
+def look : List (PStr × Cx) → PStr → Cx
+  | [], _ => Cx.zero
+  | (h, d) :: r, g => (if h = g then d else Cx.zero).add (look r g)
+
+theorem look_of_not_mem (L : List (PStr × Cx)) (g : PStr) (h : g ∉ L.map Prod.fst) : look L g = Cx.zero := by
+  induction L with
+  | nil => rfl
+  | cons x L ih =>
+    obtain ⟨k, d⟩ := x
+    simp only [List.map_cons, List.mem_cons, not_or] at h
+    simp only [look]
+    rw [if_neg (fun e => h.1 e.symm), ih h.2, Cx.zero_add]
+
+theorem look_insertTerm (g : PStr) (c : Cx) (L : List (PStr × Cx)) (g' : PStr) :
+    look (insertTerm g c L) g' = (look L g').add (if g = g' then c else Cx.zero) := by
+  induction L with
+  | nil => simp [insertTerm, look, Cx.zero_add, Cx.add_zero]
+  | cons x L ih =>
+    obtain ⟨k, d⟩ := x
+    simp only [insertTerm]
+    split
+    · next e =>
+      subst e
+      simp only [look]
+      split <;> simp [Cx.add_comm, Cx.add_left_comm, Cx.zero_add]
+    · split
+      · simp only [look]
+        simp [Cx.add_comm]
+      · simp only [look, ih]
+        simp [Cx.add_assoc]
+
+theorem mem_keys_insertTerm (g : PStr) (c : Cx) (L : List (PStr × Cx)) (k : PStr) :
+    k ∈ (insertTerm g c L).map Prod.fst ↔ k = g ∨ k ∈ L.map Prod.fst := by
+  induction L with
+  | nil => simp [insertTerm]
+  | cons x L ih =>
+    obtain ⟨h, d⟩ := x
+    simp only [insertTerm]
+    split
+    · next e => subst e; simp
+    · split
+      · simp
+      · simp only [List.map_cons, List.mem_cons, ih]
+        constructor <;> (intro hh; rcases hh with hh | hh | hh <;> simp [hh])
+
+/-- keys strictly increasing for the row order of `numpy.unique` -/
+def SortedKeys (L : List (PStr × Cx)) : Prop :=
+  (L.map Prod.fst).Pairwise (fun x y => ltBits (flat x) (flat y) = true)
+
+theorem SortedKeys.nodup {L : List (PStr × Cx)} (h : SortedKeys L) : (L.map Prod.fst).Nodup := by
+  unfold SortedKeys at h
+  refine List.Pairwise.imp ?_ h
+  intro a b hab e
+  subst e
+  rw [ltBits_irrefl] at hab; cases hab
+
+theorem sortedKeys_insertTerm (g : PStr) (c : Cx) (L : List (PStr × Cx)) (hL : SortedKeys L) :
+    SortedKeys (insertTerm g c L) := by
+  induction L with
+  | nil => simp [insertTerm, SortedKeys]
+  | cons x L ih =>
+    obtain ⟨h, d⟩ := x
+    unfold SortedKeys at hL ih ⊢
+    simp only [List.map_cons, List.pairwise_cons] at hL
+    simp only [insertTerm]
+    split
+    · simpa using hL
+    · next hne =>
+      split
+      · next hlt =>
+        simp only [List.map_cons, List.pairwise_cons, List.mem_cons]
+        refine ⟨?_, hL⟩
+        intro k hk
+        rcases hk with rfl | hk
+        · exact hlt
+        · exact ltBits_trans _ _ _ hlt (hL.1 k hk)
+      · next hlt =>
+        simp only [List.map_cons, List.pairwise_cons, mem_keys_insertTerm]
+        refine ⟨?_, ih hL.2⟩
+        intro k hk
+        rcases hk with rfl | hk
+        · exact ltBits_total _ _ (fun e => hne (flat_inj _ _ e)) (by simpa using hlt)
+        · exact hL.1 k hk
+
+/-- the aggregation loop of `reduce` -/
+def merge (a : Poly) (acc : List (PStr × Cx)) : List (PStr × Cx) :=
+  a.foldl (fun acc t => insertTerm t.1.g (t.2.mul (Cx.ipow t.1.p)) acc) acc
+
+theorem sortedKeys_merge (a : Poly) (acc : List (PStr × Cx)) (h : SortedKeys acc) : SortedKeys (merge a acc) := by
+  induction a generalizing acc with
+  | nil => exact h
+  | cons t a ih => exact ih _ (sortedKeys_insertTerm _ _ _ h)
+
+theorem look_merge (a : Poly) (acc : List (PStr × Cx)) (g : PStr) :
+    look (merge a acc) g = (look acc g).add (coef a g) := by
+  induction a generalizing acc with
+  | nil => simp [merge, coef_nil, Cx.add_zero]
+  | cons t a ih =>
+    show look (merge a _) g = _
+    rw [ih, look_insertTerm, coef_cons, Cx.add_assoc]; rfl
+
+theorem reduce_eq (a : Poly) (tn td : Nat) :
+    reduce a tn td = ((merge a []).filter fun gc => gc.2.norm2 > tolSq tn td).map fun gc => (⟨gc.1, 0⟩, gc.2) := rfl
+
+theorem coef_emit (L : List (PStr × Cx)) (g : PStr) :
+    coef (L.map fun gc => ((⟨gc.1, 0⟩ : Pauli), gc.2)) g = look L g := by
+  induction L with
+  | nil => rfl
+  | cons x L ih =>
+    obtain ⟨h, d⟩ := x
+    simp only [List.map_cons, coef_cons, ih, look, termVal, Cx.ipow_zero, Cx.mul_one]
+
+theorem look_filter (L : List (PStr × Cx)) (hL : (L.map Prod.fst).Nodup) (tn td : Nat) (g : PStr) :
+    look (L.filter fun gc => gc.2.norm2 > tolSq tn td) g = keep (look L g) tn td := by
+  induction L with
+  | nil => simp [look, keep]
+  | cons x L ih =>
+    obtain ⟨h, d⟩ := x
+    simp only [List.map_cons, List.nodup_cons] at hL
+    by_cases e : h = g
+    · subst e
+      have h0 : look L h = Cx.zero := look_of_not_mem _ _ hL.1
+      have h1 : look (L.filter fun gc => gc.2.norm2 > tolSq tn td) h = Cx.zero := by
+        rw [ih hL.2, h0]; simp [keep]
+      simp only [List.filter_cons]
+      split
+      · next hk =>
+        simp only [look, h0, h1, Cx.add_zero, if_true, keep]
+        rw [if_pos (by simpa using hk)]
+      · next hk =>
+        simp only [look, h0, h1, Cx.add_zero, if_true, keep]
+        rw [if_neg (by simpa using hk)]
+    · simp only [List.filter_cons]
+      split
+      · simp only [look, if_neg e, Cx.zero_add]; exact ih hL.2
+      · simp only [look, if_neg e, Cx.zero_add]; exact ih hL.2
+
+theorem reduce_spec (a : Poly) (tn td : Nat) (g : PStr) :
+    ((reduce a tn td).map fun t => t.1.g).Nodup ∧ (∀ t ∈ reduce a tn td, t.1.p = 0) ∧
+    coef (reduce a tn td) g = keep (coef a g) tn td := by
+  have hs : SortedKeys (merge a []) := sortedKeys_merge a [] (by simp [SortedKeys])
+  refine ⟨?_, ?_, ?_⟩
+  · rw [reduce_eq, List.map_map]
+    exact (hs.nodup.sublist ((List.filter_sublist).map Prod.fst))
+  · intro t ht
+    rw [reduce_eq] at ht
+    simp only [List.mem_map] at ht
+    obtain ⟨x, -, rfl⟩ := ht
+    rfl
+  · rw [reduce_eq, coef_emit, look_filter _ hs.nodup, look_merge]
+    simp [look, Cx.zero_add]
+
+
+/-! ## products, numbers, trace -/
+
+theorem polyMatmul_nil (b : Poly) : polyMatmul [] b = [] := rfl
+theorem polyMatmul_cons (x : Term) (a b : Poly) :
+    polyMatmul (x :: a) b = b.map (fun y => (mul x.1 y.1, x.2.mul y.2)) ++ polyMatmul a b :=
+  batchDot_cons Cx.mul x a b
+
+theorem polyMatmul_append (a a' b : Poly) : polyMatmul (a ++ a') b = polyMatmul a b ++ polyMatmul a' b := by
+  simp [polyMatmul, batchDot]
+
+theorem coef_polyMatmul_append_right (a b b' : Poly) (g : PStr) :
+    coef (polyMatmul a (b ++ b')) g = (coef (polyMatmul a b) g).add (coef (polyMatmul a b') g) := by
+  induction a with
+  | nil => simp [polyMatmul_nil, coef_nil, Cx.add_zero]
+  | cons x a ih =>
+    simp only [polyMatmul_cons, List.map_append, coef_append, ih]
+    simp only [Cx.add_assoc]
+    congr 1
+    simp only [Cx.add_left_comm]
+
+theorem mul_phase_shift (P Q : Pauli) (k : Int) :
+    mul ⟨P.g, P.p + k⟩ Q = ⟨(mul P Q).g, ((mul P Q).p + k) % 4⟩ := by
+  simp only [mul]; congr 1; omega
+
+theorem matmul_phase (P Q : Pauli) (c d : Cx) (k : Int) (g : PStr) :
+    coef (polyMatmul [(⟨P.g, P.p + k⟩, c)] [(Q, d)]) g = coef (polyMatmul [(P, c.mul (Cx.ipow k))] [(Q, d)]) g := by
+  simp only [polyMatmul_cons, polyMatmul_nil, List.map_cons, List.map_nil, List.append_nil, coef_single,
+    mul_phase_shift, termVal]
+  split
+  · rw [Cx.ipow_mod, Cx.ipow_add]
+    simp only [Cx.mul_assoc]
+    congr 1
+    simp only [Cx.mul_left_comm, Cx.mul_comm]
+  · rfl
+
+theorem coef_smul_identity (c : Cx) (N : Nat) (g : PStr) :
+    coef (polySmul c (polyIdentity N)) g = if g = idStr N then c else Cx.zero := by
+  simp only [polySmul, polyIdentity, List.map_cons, List.map_nil, coef_single, termVal, Cx.ipow_zero, Cx.mul_one]
+  by_cases e : g = idStr N
+  · rw [if_pos e, if_pos e.symm]
+  · rw [if_neg e, if_neg (fun e' => e e'.symm)]
+
+theorem anyBit_eq_false_iff (g : PStr) : anyBit g = false ↔ g = idStr g.length := by
+  induction g with
+  | nil => simp [anyBit, idStr]
+  | cons q g ih =>
+    obtain ⟨x, z⟩ := q
+    simp only [anyBit, List.any_cons, List.length_cons, idStr_succ, List.cons.injEq, Bool.or_eq_false_iff,
+      Prod.mk.injEq] at ih ⊢
+    rw [ih]
+
+theorem traceStr_idStr (N : Nat) : traceStr (idStr N) = (2 : Rat) ^ N := by
+  have h := (anyBit_eq_false_iff (idStr N)).2 (by rw [length_idStr])
+  simp [traceStr, h, length_idStr]
+
+theorem traceStr_of_ne (g : PStr) (h : g ≠ idStr g.length) : traceStr g = 0 := by
+  have : anyBit g = true := by
+    cases hb : anyBit g
+    · exact absurd ((anyBit_eq_false_iff g).1 hb) h
+    · rfl
+  simp [traceStr, this]
+
+theorem polyTrace_foldl (a : Poly) (acc : Cx) :
+    a.foldl (fun acc t => acc.add (t.2.mul ⟨traceStr t.1.g, 0⟩)) acc = acc.add (polyTrace a) := by
+  induction a generalizing acc with
+  | nil => simp [polyTrace, Cx.add_zero]
+  | cons t a ih =>
+    simp only [polyTrace, List.foldl_cons]
+    rw [ih, ih (acc := Cx.zero.add _), Cx.zero_add, Cx.add_assoc]
+
+theorem polyTrace_nil : polyTrace [] = Cx.zero := rfl
+theorem polyTrace_cons (t : Term) (a : Poly) :
+    polyTrace (t :: a) = (t.2.mul ⟨traceStr t.1.g, 0⟩).add (polyTrace a) := by
+  show List.foldl _ _ _ = _
+  rw [List.foldl_cons, polyTrace_foldl, Cx.zero_add]
+
+theorem trace_partial (a : Poly) (N : Nat) (hN : ∀ t ∈ a, t.1.g.length = N)
+    (hid : ∀ t ∈ a, t.1.g = idStr N → t.1.p % 4 = 0) :
+    polyTrace a = (Cx.mk ((2 : Rat) ^ N) 0).mul (coef a (idStr N)) := by
+  induction a with
+  | nil => simp [polyTrace_nil, coef_nil, Cx.mul_zero]
+  | cons t a ih =>
+    have hN' : ∀ t ∈ a, t.1.g.length = N := fun t ht => hN t (List.mem_cons_of_mem _ ht)
+    have hid' : ∀ t ∈ a, t.1.g = idStr N → t.1.p % 4 = 0 := fun t ht => hid t (List.mem_cons_of_mem _ ht)
+    rw [polyTrace_cons, coef_cons, Cx.mul_add, ih hN' hid']
+    congr 1
+    have hl := hN t List.mem_cons_self
+    unfold termVal
+    by_cases e : t.1.g = idStr N
+    · rw [if_pos e, Cx.ipow_of_mod_zero (hid t List.mem_cons_self e), Cx.mul_one, e, traceStr_idStr, Cx.mul_comm]
+    · rw [if_neg e, traceStr_of_ne _ (by rw [hl]; exact e), Cx.mul_zero]
+      exact Cx.mul_zero _
 
 end PC
